@@ -8,6 +8,7 @@ import (
 	"sort"
 	"strings"
 	"testing"
+	"time"
 
 	"github.com/ory/keto/internal/check/checkgroup"
 	"github.com/ory/keto/internal/driver"
@@ -545,19 +546,36 @@ func (ee *engineEnv) table(out *sink) {
 	out.emit(fmt.Sprintf("table %d %s", len(rows), strings.Join(rows, " ")), "-")
 }
 
-// check runs the real engine on one tuple
+var engineHung bool
+
+// check runs the real engine on one tuple; a check that has not returned after 20 s is reported as "hang" (and the
+// suite stops issuing further checks: every one of them would cost the same 20 s)
 func (ee *engineEnv) check(tu *ketoapi.RelationTuple, depth int) string {
-	ctx := context.Background()
+	if engineHung {
+		return "hang"
+	}
+	ctx, cancel := context.WithCancel(context.Background())
+	defer cancel()
 	its, err := ee.e.reg.ReadOnlyMapper().FromTuple(ctx, tu)
 	if err != nil {
 		return "maperr"
 	}
-	res := ee.e.reg.PermissionEngine().CheckRelationTuple(ctx, its[0], depth)
-	er := 0
-	if res.Err != nil {
-		er = 1
+	done := make(chan string, 1)
+	go func() {
+		res := ee.e.reg.PermissionEngine().CheckRelationTuple(ctx, its[0], depth)
+		er := 0
+		if res.Err != nil {
+			er = 1
+		}
+		done <- fmt.Sprintf("%s %d", memTok(res.Membership), er)
+	}()
+	select {
+	case o := <-done:
+		return o
+	case <-time.After(20 * time.Second):
+		engineHung = true
+		return "hang"
 	}
-	return fmt.Sprintf("%s %d", memTok(res.Membership), er)
 }
 
 func egQuery(r *rng, nss []*namespace.Namespace) *ketoapi.RelationTuple {
@@ -590,7 +608,8 @@ func suiteEngine(t *testing.T, cfg cfgT) {
 		cases += engineCorpus(t, out)
 	}
 	envNo := 0
-	for cases < cfg.n {
+	engineHung = false
+	for cases < cfg.n && !engineHung {
 		hr := r.fork()
 		allowNot := hr.chance(1, 2)
 		nss := genConfig(hr, allowNot)
@@ -723,6 +742,20 @@ func engineCorpus(t *testing.T, out *sink) int {
 			depth: depth, gdepth: 100,
 		})
 	}
+	// a wide traversal: 150 parents (two storage pages of the tuple-to-subject-set listing), grants behind parents of
+	// the first and of the second page
+	{
+		wide := sc{
+			nss: doc(ast.Relation{Name: "own"}, ast.Relation{Name: "par"},
+				ast.Relation{Name: "view", SubjectSetRewrite: or(css("own"), ttu("par", "view"))}),
+			checks: []string{"Doc:w#view@alice", "Doc:w#view@bob", "Doc:w#view@carol"}, gdepth: 5,
+		}
+		for i := 0; i < 150; i++ {
+			wide.tuples = append(wide.tuples, fmt.Sprintf("Doc:w#par@Doc:q%d#", i))
+		}
+		wide.tuples = append(wide.tuples, "Doc:q3#own@alice", "Doc:q120#own@bob")
+		scs = append(scs, wide)
+	}
 	// D16: a-b:o#c and a:o#b-c had the same visited id; repeated so that both storage orders occur
 	for i := 0; i < 6; i++ {
 		scs = append(scs, sc{
@@ -733,8 +766,11 @@ func engineCorpus(t *testing.T, out *sink) int {
 	}
 	for _, s := range scs {
 		ee := newEngineEnv(t, s.nss, false, false, s.gdepth, 100)
-		for _, o := range []string{"x", "y", "z", "g", "h", "o", "deep", "grp", "alice", "bob", "carol"} {
+		for _, o := range []string{"x", "y", "z", "g", "h", "o", "w", "deep", "grp", "alice", "bob", "carol"} {
 			ee.pool.add(o)
+		}
+		for i := 0; i < 150; i++ {
+			ee.pool.add(fmt.Sprintf("q%d", i))
 		}
 		ee.header(out)
 		var ts []*ketoapi.RelationTuple
